@@ -337,3 +337,11 @@ func absorb(r interface {
 	}
 	return &rep
 }
+
+
+// discardSink lets a check absorb a child's report without adopting its violations.
+type discardSink struct{}
+
+func (*discardSink) Violation(sig, what string, witness any) {}
+func (*discardSink) Inconclusive(why string)                {}
+func (*discardSink) Note(format string, a ...any)           {}
